@@ -191,6 +191,12 @@ func runC15(r *Run) {
 		r.requireSucc(P+".process.flow", "the operations stored are the ones read for this transaction", f, core.Ctx{}, "",
 			"ok(OperationProvider.GetTxnOperations(_, _))", "ok(processTxnOperations(_, OperationProvider.GetTxnOperations(_, _), _))")
 	}
+	// a duplicate suffix is skipped; the remaining operations of the transaction are still stored
+	if f := r.fn(P, pkgTxnProc, "TxnProcessor.processTxnOperations"); f != nil {
+		okIso, detIso := r.loopBodyIsolated(f)
+		r.R.Check(okIso, P+".dedupe.isolation", "E8 loop isolation: the per-operation loop of a transaction is left only through its head (a discarded duplicate does not end the loop)", core.FuncName(f), r.where(f),
+			"leaving the loop at the first duplicate drops every later operation of the transaction", "no exit from the loop body", detIso)
+	}
 	// --- isolation
 	if f := r.fn(P, pkgObserver, "Observer.process"); f != nil {
 		ok, det := r.loopBodyIsolated(f)
